@@ -33,7 +33,9 @@ import (
 	"github.com/EdgeCast/vflow/reader"
 )
 
-type nonfatalError error
+type nonfatalError struct {
+	error
+}
 
 // PacketHeader represents Netflow v9  packet header
 type PacketHeader struct {
@@ -350,8 +352,8 @@ func (d *Decoder) decodeData(tr TemplateRecord) ([]DecodedField, error) {
 		}]
 
 		if !ok {
-			return nil, nonfatalError(fmt.Errorf("Netflow element key (%d) not exist (scope)",
-				tr.ScopeFieldSpecifiers[i].ElementID))
+			return nil, nonfatalError{fmt.Errorf("Netflow element key (%d) not exist (scope)",
+				tr.ScopeFieldSpecifiers[i].ElementID)}
 		}
 
 		fields = append(fields, DecodedField{
@@ -372,8 +374,8 @@ func (d *Decoder) decodeData(tr TemplateRecord) ([]DecodedField, error) {
 		}]
 
 		if !ok {
-			return nil, nonfatalError(fmt.Errorf("Netflow element key (%d) not exist",
-				tr.FieldSpecifiers[i].ElementID))
+			return nil, nonfatalError{fmt.Errorf("Netflow element key (%d) not exist",
+				tr.FieldSpecifiers[i].ElementID)}
 		}
 
 		fields = append(fields, DecodedField{
@@ -442,10 +444,10 @@ func (d *Decoder) decodeSet(mem MemCache, msg *Message) error {
 		var ok bool
 		tr, ok = mem.retrieve(setHeader.FlowSetID, d.raddr)
 		if !ok {
-			err = nonfatalError(fmt.Errorf("%s unknown netflow template id# %d",
+			err = nonfatalError{fmt.Errorf("%s unknown netflow template id# %d",
 				d.raddr.String(),
 				setHeader.FlowSetID,
-			))
+			)}
 		}
 	}
 
@@ -454,10 +456,10 @@ func (d *Decoder) decodeSet(mem MemCache, msg *Message) error {
 	minLen := 5
 	if setHeader.FlowSetID > 255 && err == nil {
 		if minLen = tr.recordLength(); minLen == 0 {
-			err = nonfatalError(fmt.Errorf("%s netflow template id# %d describes zero-length records",
+			err = nonfatalError{fmt.Errorf("%s netflow template id# %d describes zero-length records",
 				d.raddr.String(),
 				setHeader.FlowSetID,
-			))
+			)}
 		}
 	}
 
